@@ -27,6 +27,99 @@ def gen_expr(r):
     return b",".join(hlgen.gen_text(r, ("alpha", "alnum", "dash", "digits")) for _ in range(n))
 
 
+def split_groups(T):
+    """the bracketed text cut at the commas outside brackets"""
+    out, depth, cur = [], 0, b""
+    for ch in T:
+        c = bytes([ch])
+        if c == b"[":
+            depth += 1
+        elif c == b"]":
+            depth -= 1
+        if c == b"," and depth == 0:
+            out.append(cur); cur = b""
+        else:
+            cur += c
+    out.append(cur)
+    return out
+
+
+GROUP_BUF = 1024      # MAXHOSTRANGELEN: the fixed buffer of the group-by-group calls
+
+
+def long_group(r):
+    """one bracket group whose text is about as long as the fixed buffer of the group-by-group calls"""
+    pre = bytes(r.choice(b"abcdefgh") for _ in range(r.range(1, 3)))
+    want = GROUP_BUF + r.range(-12, 12)
+    parts, n, L = [], r.range(1, 40), len(pre) + 2
+    while True:
+        item = b"%d" % n if r.chance(2, 3) else b"%d-%d" % (n, n + r.range(1, 3))
+        if L + len(item) + 1 > want:
+            break
+        parts.append(item)
+        L += len(item) + 1
+        n = int(item.split(b"-")[-1]) + r.range(2, 4)
+    e = pre + b"[" + b",".join(parts) + b"]"
+    k = r.weighted([(0, 3), (1, 2), (2, 1)])
+    more = [bytes(r.choice(b"xyz") for _ in range(2)) + b"[1-3,7]", b"q9"][:k]
+    lst = [e] + more
+    if r.chance(1, 3):
+        lst.reverse()
+    return b",".join(lst)
+
+
+def groups_part(ctx, eng, r, exprs, o1, stats):
+    """the bracketed form handed out one group at a time (shift_range, pop_range, next_range of an iterator): every piece is
+    the corresponding group of the whole text, or - longer than the fixed buffer - a NUL-terminated prefix of it; nothing is
+    written outside the buffer (ASan); the list loses exactly what was handed out"""
+    items = []
+    for k, e in enumerate(exprs):
+        rg = o1[3 * k + 1].split(" ")
+        if o1[3 * k].startswith("OK") and len(rg) == 2 and rg[0] != "-1" and rg[1] != "UNTERMINATED":
+            items.append((e, unhex(rg[1])))
+    items = items[:120]
+    longs = [long_group(r) for _ in range(40 if ctx.tier == "quick" else 600)]
+    lo = eng.run_impl(["ranged %s %d" % (hexs(e), BIG) for e in longs])
+    for e, o in zip(longs, lo):
+        f = o.split(" ")
+        if len(f) == 2 and f[0] != "-1":
+            items.append((e, unhex(f[1])))
+    cases = ["ranges %s %s" % (hexs(e), m) for e, T in items for m in "spn"]
+    outs = eng.run_impl(cases)
+    k = 0
+    bad = 0
+    for e, T in items:
+        G = split_groups(T)
+        for m in "spn":
+            o = outs[k]; c = cases[k]; k += 1
+            stats["groupwise"] = stats.get("groupwise", 0) + 1
+            problem = None
+            if o.startswith(("CRASH", "HANG")):
+                problem = "handing out the groups faulted: " + o[:200]
+            else:
+                f = o.split(" ")
+                got = [unhex(x) if x != "-" else b"" for x in f[1:-1]]
+                exp = G if m != "p" else list(reversed(G))
+                if len(got) != len(exp):
+                    problem = "%d pieces for %d groups" % (len(got), len(exp))
+                else:
+                    for a, b in zip(got, exp):
+                        if len(b) < GROUP_BUF:
+                            if a != b:
+                                problem = "piece %r is not the group %r" % (a[:60], b[:60]); break
+                        else:
+                            stats["group_over_buffer"] = stats.get("group_over_buffer", 0) + 1
+                            if len(a) >= GROUP_BUF or not b.startswith(a):
+                                problem = "group of %d bytes: piece of %d bytes is not a prefix that fits %d" % (len(b), len(a), GROUP_BUF); break
+                if not problem and m != "n" and f[-1] != "left=0":
+                    problem = "list not empty after all groups were taken: " + f[-1]
+            if problem:
+                bad += 1
+                ctx.violation("input", case=c, expected="the groups of %r" % T[:200], observed=o[:300], engine="hl", detail=problem + "; list %r" % e[:120])
+                if bad >= 4:
+                    return
+
+
 def run(ctx):
     ctx.gen_params()
     ctx.prove()
@@ -76,6 +169,7 @@ def run(ctx):
     impl = eng.run_impl(cases)
     model = eng.run_model(cases)
     bad = 0
+    perlist = {}
     stats = {"fit": 0, "truncated": 0, "exact_fill": 0, "roundtrip": 0}
     samples = []
     for c, m, i, mo in zip(cases, meta, impl, model):
@@ -103,17 +197,21 @@ def run(ctx):
                         problem = ("input", "text of length %d does not fit n=%d: expected -1 and a NUL-terminated prefix" % (L, n), "-1 <prefix>")
         if problem is None and i != mo:
             problem = ("corr", "implementation and model disagree", mo)
+        if problem and perlist.get(m[2], 0) >= 2:
+            problem = None       # two reports per list are enough; go on to the other lists
         if problem:
             bad += 1
+            perlist[m[2]] = perlist.get(m[2], 0) + 1
             if problem[0] == "input":
                 ctx.violation("input", case=c, expected=problem[2][:300], observed=i[:300], engine="hl", detail=problem[1] + "; list %r" % m[2][:120])
             else:
                 ctx.violation("no-failing-input-found", case=c, expected=mo[:300], observed=i[:300], engine="hl",
                               correspondence="hl: %s_string(impl) = model" % m[1], detail=problem[1] + "; list %r" % m[2][:120])
-            if bad >= 8:
+            if bad >= 12:
                 break
         if len(samples) < 3 and m[0] == "sz" and len(m[3]) > 20 and m[4] == len(m[3]):
             samples.append({"op": m[1], "list": m[2][:60].decode("latin-1"), "n": m[4], "impl": i[:80]})
+    groups_part(ctx, eng, r, exprs, o1, stats)
     have_input = any(v["kind"] != "no-failing-input-found" for v in ctx.violations)
     vlib.report_proof_break(ctx, have_input)
     cov = vlib.proof_coverage(ctx, {
